@@ -5,12 +5,15 @@ program's address alphabet. SCRIPTED: the sites consulted are exactly the leaves
 Boolean semantics selects, with the reference's conditional-prior parameters under the (possibly
 new) arguments. Definedness: any exception is a violation.
 """
-from sim import gfi, ref, selections, tracemachine as tm
+from sim import gfi, ref, selections, tracemachine as tm, bare
 
 PROP = "C04"
 
 
 def gen_case(rng, tier):
+    if rng.random() < 0.12:
+        # a bare Distribution / Vmap-of-Distribution used directly through the GFI (sim/bare.py)
+        return bare.gen_case(rng, tier, "regenerate")
     c = gfi.gen_model_case(rng, tier)
     paths = ref.model_paths(c["model"])
     ops = [{"op": "init", "how": rng.choice(["simulate", "generate"]), "key": rng.randint(0, 2**30),
@@ -35,7 +38,10 @@ def gen_case(rng, tier):
 
 
 def run_case(case):
+    if "bare" in case:
+        return bare.run_case(case)
     return tm.run_history(case)
 
 
-shrink = tm.shrink_history
+def shrink(case):
+    return bare.shrink(case) if "bare" in case else tm.shrink_history(case)
